@@ -50,6 +50,9 @@ ASSUMPTIONS = [
     'it is needed); the harness probes it on the real code: a call is parked at its utimensat / unlink of an entry file '
     'and the next steps of the schedule are attempted inside that window (250 ms; on the unchanged tree they wait for '
     'the lock, so the outcome is that of the plain schedule — a slow machine can only make a probe miss, never fail)',
+    'the name of the cache directory and dot-names inside the tree are part of the case space (roots .sccache / .c / '
+    '..cache, leftover temp files and other files in hidden directories); in the model every path is relative to the '
+    'cache root and init walks everything below it',
     'no other process touches the cache directory',
 ]
 TRUSTED = ['hook H2: verif_hooks::sync at put.before_reserve / put.reserved / put.written / put.committed / '
@@ -211,7 +214,8 @@ def shapes(tier):
 POOL_KEYS = [K1, K2, K3]
 POOL_PP = [P1, P2]
 RAW_TEMPS = [b'.sccachetmpZ0', b'.sccachetmpZ1', b'preprocessor/.sccachetmpZ2', b'preprocessor/a/.sccachetmpZ3',
-             b'a/1/.sccachetmpZ4', b'0/.sccachetmpZ5']
+             b'a/1/.sccachetmpZ4', b'0/.sccachetmpZ5', b'.git/.sccachetmpZ6', b'a/.1/.sccachetmpZ7']
+ROOT_NAMES = [b'.sccache', b'.c', b'cache.d', b'..cache']
 
 
 def gen_random(rng, n, maxthreads):
@@ -257,7 +261,10 @@ def gen_random(rng, n, maxthreads):
                 left[i] -= 1
                 sched.append(i)
         cut = rng.below(len(sched) + 1) if rng.chance(2, 3) else len(sched)
-        out.append([cap, rng.below(2), init, ths, sched[:cut]])
+        case = [cap, rng.below(2), init, ths, sched[:cut]]
+        if rng.chance(1, 3):
+            case += [[], [], rng.choice(ROOT_NAMES)]
+        out.append(case)
     return out
 
 
@@ -289,6 +296,19 @@ def gen_cases(rng, tier):
             (100000, [ini(K1, 'C', 5)], [put(K3, 'A'), get(K1), get(K3)])]:
         for p in prefixes(ths):
             out.append([cap, 0, init, ths, p, [K1]])
+    # the NAME of the cache directory, and dot-names inside the tree, belong to the case space: whatever the
+    # directory is called (~/.sccache) and wherever a leftover temp file sits (in a hidden directory too), the
+    # restarted server removes it, and every other file below the root is scanned
+    dots = [raw(b'.hidden/.sccachetmpH', 'C', 7), raw(b'a/.dot/.sccachetmpD', 'E', 8), raw(b'.hidden/kept', 'E', 9),
+            raw(b'preprocessor/.x/.sccachetmpE', 'C', 10)]
+    for rootname in (b'.sccache', b'.cache.d', b'cache'):
+        for cap, init, ths in [
+                (100000, [ini(K1, 'C', 5)], [put(K1, 'A', 2), get(K1)]),
+                (100000, [ini(K1, 'C', 5), pp_ini(P2, 'q', 6)] + dots, [put(K2, 'A'), get(K1)]),
+                (100000, [ini(K1, 'C', 5), pp_ini(P2, 'q', 6)] + dots[:2], [pp_put(P1, 'p', 2), get(K1)]),
+                (e['A'] + e['C'] + e['E'] + 5, [ini(K1, 'C', 5)] + dots[2:3], [put(K2, 'A'), get(K1)])]:
+            for p in prefixes(ths):
+                out.append([cap, len(p) % 2, init, ths, p, [], [], rootname])
     # lock-scope probes: the call stepped at position i is parked at its first utimensat / unlink of an entry file
     # and the following m steps are attempted inside that window (they just wait if the call holds the cache lock,
     # as every lookup and every eviction does on the unchanged tree: the model's steps are atomic)
@@ -495,11 +515,15 @@ def monitor(case, out):
                 if path == pp_path(k):
                     ok = any(st is True and kk == k and elen_of[(st, kk, pid)] == sz and complete(st, kk, pid)
                              for (st, kk, pid) in elen_of)
+            if raw_files.get(path) == sz:
+                ok = True
             if not ok:
                 vs.append('%s: the %s indexes %r with %d bytes, which is no complete entry stored there' % (label, which, path, sz))
         return total
 
     raw_temps = [f[1] for f in init if f[0] == b'raw' and is_temp_path(f[1])]
+    # any other file below the root is an entry to the store that scans it (existing behaviour), whatever its name
+    raw_files = dict((f[1], f[4]) for f in init if f[0] == b'raw' and not is_temp_path(f[1]))
     top_temps = [q for q in raw_temps if not q.startswith(PP_DIR)]
 
     def check_obs(label, o, live):
@@ -559,7 +583,7 @@ def monitor(case, out):
         after = dict(((False, k), o) for k, o in zip(mkeys, out[7]))
         after.update(((True, k), o) for k, o in zip(pkeys, out[8]))
         held = [(st, k, o) for st, k, o in before if isinstance(o, list) and o and o[0] == b'hit' and (st, k, o[1]) in elen_of]
-        total = sum(elen_of[(st, k, o[1])] for st, k, o in held)
+        total = sum(elen_of[(st, k, o[1])] for st, k, o in held) + sum(raw_files.values())
         if total <= cap:
             for st, k, o in held:
                 if after.get((st, k)) != o:
@@ -577,8 +601,10 @@ def nontrivial(case, out):
 
 def stats(case, out):
     ks = ['threads=%d' % len(case[3]), 'sched_len=%d' % len(case[4]), 'order=%d' % case[1]]
-    if len(case) > 6:
+    if len(case) > 6 and case[6]:
         ks.append('lock_scope_probe=%s' % case[6][1].decode())
+    if len(case) > 7:
+        ks.append('root_name=%s' % ('dot' if case[7].startswith(b'.') else 'plain'))
     if mounted(case):
         ks.append('shard_on_other_fs' + ('(skipped)' if out == [b'skipped'] else ''))
     try:
